@@ -1841,9 +1841,24 @@ BENGALI_DOMAIN = [chr(c) for c in range(0x0980, 0x0A00)] + ["‌", "‍", "a", "
 # ---------------------------------------------------------------------------
 # path enumeration with on-the-fly evaluation and pruning of decided branches
 
+ORDERING_SWITCHES = [False]     # set by a reader that compares known values with `_kv_in` (sym_paths does)
+
+
+def _kv_in(kv, vals):
+    """A known value among switch values; a negative value (Ordering::Less = −1) is met in whatever width its bit pattern was written."""
+    if kv in vals:
+        return True
+    return kv < 0 and any(v in (kv & 0xFF, kv & 0xFFFF, kv & 0xFFFFFFFF, kv & (2 ** 64 - 1), kv & (2 ** 128 - 1)) for v in vals)
+
+
 def known_switch_value(e):
     """If the switch discriminant E has a statically known value: that integer, else None."""
     e = strip_refs(e)
+    if e.k == "discr":
+        o_ = strip_refs(e.a[0])
+        if o_.k == "agg" and isinstance(o_.t, dict) and o_.t.get("adt") == "std::cmp::Ordering" and o_.t.get("variant") in ("Less", "Equal", "Greater") \
+                and ORDERING_SWITCHES[0]:
+            return {"Less": -1, "Equal": 0, "Greater": 1}[o_.t["variant"]]
     if e.k == "const" and e.a[0][0] in ("int", "bool"):
         return int(e.a[0][1])
     if e.k == "const" and e.a[0][0] == "char":
@@ -1898,11 +1913,15 @@ def sym_paths(body, start=0, limit=20000, env=None, stops=()):
             return
         if k == "switch":
             d = body.expr_operand(t["discr"], 0, env)
-            kv = known_switch_value(d)
+            ORDERING_SWITCHES[0] = True
+            try:
+                kv = known_switch_value(d)
+            finally:
+                ORDERING_SWITCHES[0] = False
             allv = tuple(v for v, _ in t["targets"])
             for (node, vals, tgt) in body.switch_edges(b):
                 if kv is not None:
-                    take = (kv in vals) if vals != "otherwise" else (kv not in allv)
+                    take = _kv_in(kv, vals) if vals != "otherwise" else (not _kv_in(kv, allv))
                     if not take:
                         continue
                     rec(tgt, path + [(b, vals)], env, conds, onpath | {b})
